@@ -265,9 +265,10 @@ func TestVerifC08Sock(t *testing.T) {
 	wg.Wait()
 	// a lost datagram or a slow machine must not look like a missing reply:
 	// unanswered queries are repeated one at a time with longer waits
-	for attempt := 1; attempt <= 2; attempt++ {
+	// (up to 3.2 s in the end: the machine may be shared with many other jobs)
+	for attempt := 1; attempt <= 4; attempt++ {
 		for _, l := range labs {
-			l.Wait = time.Duration(attempt) * 400 * time.Millisecond
+			l.Wait = time.Duration(1<<(attempt-1)) * 400 * time.Millisecond
 		}
 		for k := range jobs {
 			if !res[k].Sent {
